@@ -225,8 +225,7 @@ def varSpecAsInit : P Sx :=
           pure (sxStringInit length "String" none))
   <|> (do let _ ← tok "WString"
           let length ← opt (do ws; let _ ← tok "LeftBracket"; ws; let l ← integer; let _ ← tok "RightBracket"; pure l)
-          -- `VariableSpecificationKind::String(node)` → `width: StringType::String` (the node's own width is not used)
-          pure (sxStringInit length "String" none))
+          pure (sxStringInit length "WString" none))
   <|> (do let et ← elementaryTypeName; pure (sxSimpleInit (elementaryAsType et) none))
   <|> (do let id ← typeName; pure (Sx.t "LateResolvedType" [id]))
 
